@@ -26,7 +26,7 @@ ASSUMPTIONS = [
     "(order 2, measured <=2.2e-5), 3e-5 (order 3, measured <=3.8e-6), 1.5e-3 (light-by-light piece, measured 2.3e-4); order 1 is exact (1e-9)",
     "sub-per-mille edits of fitted NNLO/N3LO constants in regular parts are not detectable by these exact constraints",
 ]
-BUDGET = {"quick": {"examples": 4000, "wall": 300}, "thorough": {"examples": 120000, "wall": 2400}}
+BUDGET = {"quick": {"examples": 4000, "wall": 300}, "thorough": {"examples": 1000000, "wall": 2400}}
 MANDATORY = {
     t: ["clause:closed", "clause:moment", "clause:sumrule", "sumrule:adler", "sumrule:gls-bjorken", "sumrule:lbl", "kind:F2", "kind:FL", "kind:F3", "kind:g1",
         "channel:q", "channel:g", "order:2", "order:3"]
